@@ -4,7 +4,8 @@ open HailVerif HailVerif.DriverUtil HailVerif.TxRetry
 
 /-! line: `<init> | <body> | <scripts>` with
   init    = `k=v` tokens (initial rows),
-  body    = `n` (nop) | `u:k:d` (upsert) | `i:k:v` (insert) | `w:k:d` (update) tokens,
+  body    = `n` (nop) | `u:k:d` (upsert) | `i:k:v` (insert) | `w:k:d` (update) | `r:k:0` / `a:k:0` (select through
+            execute_and_fetchone / execute_and_fetchall) tokens; a 4th component `:q` = the statement is issued with a query_name,
   scripts = per attempt `-` (no fault) or `idx:cls:code`,
 answer: `attempts=N result=ok|err:cls:code db=k=v,k=v` -/
 
@@ -17,12 +18,20 @@ def clsName : ErrClass → String
   | .operational => "op" | .internal => "int" | .integrity => "integ" | .programming => "prog"
   | .data => "data" | .notSupported => "nosup" | .interface => "iface" | .other => "other"
 
-def parseStmt (t : String) : Option KV.Stmt :=
+def parseKind (kind k d : String) : Option KV.Stmt :=
+  match kind with
+  | "u" => do some (.upsert (← k.toNat?) (← d.toInt?))
+  | "i" => do some (.insert (← k.toNat?) (← d.toInt?))
+  | "w" => do some (.update (← k.toNat?) (← d.toInt?))
+  | "r" => do some (.select (← k.toNat?))
+  | "a" => do some (.select (← k.toNat?))
+  | _ => none
+
+def parseStmt (t : String) : Option (Bool × KV.Stmt) :=
   match t.splitOn ":" with
-  | ["n"] => some .nop
-  | ["u", k, d] => do some (.upsert (← k.toNat?) (← d.toInt?))
-  | ["i", k, v] => do some (.insert (← k.toNat?) (← v.toInt?))
-  | ["w", k, d] => do some (.update (← k.toNat?) (← d.toInt?))
+  | ["n"] => some (false, .nop)
+  | [kind, k, d] => do some (false, ← parseKind kind k d)
+  | [kind, k, d, "q"] => do some (true, ← parseKind kind k d)
   | _ => none
 
 def parseScript (t : String) : Option (Option (Nat × Err)) :=
